@@ -381,6 +381,16 @@ func (x *Exec) builtin(st *State, call *ssa.Call, b *ssa.Builtin, k retK) {
 			return
 		}
 		if bb.Elems != nil {
+			live := false
+			for _, e := range bb.Elems {
+				live = live || x.liveRecord(st, e)
+			}
+			if live {
+				// appending a pointer to a record that is still being filled in (col := &T{...}; s = append(s, col);
+				// col.f = ...): the element is read when the sequence is next needed as a value
+				k(st, []Val{{S: s, LazyBase: at, LazyTail: append([]Val(nil), bb.Elems...)}})
+				return
+			}
 			t := at
 			for _, e := range bb.Elems {
 				t = fmt.Sprintf("(%s.snoc %s %s)", s, t, x.term(st, e, true))
